@@ -22,7 +22,10 @@ RULE = ('categorical data sets (1-3 covariates of arity 2-4, <= 12 strata, posit
         'models; plans: unconditional p on the grid {0, .2, .5, .75, 1}, and 2-4 exclusive exhaustive conditions over the '
         'covariates (written over `df` / `g` as each class evaluates them) with random probabilities (incl. all-0 and '
         'all-1, and all-equal p) listed in EVERY order (all permutations), as the complementary strings of a two-cell partition, and '
-        'as a one-pair listing selecting everybody; resamples in {1, 3, 5, 10, 50}; seeds fixed and the draws captured '
+        'as a one-pair listing selecting everybody; StochasticTMLE with custom stratum-proportion learners for the treatment / '
+        'outcome / both models; frequency weights differing between arms within strata (StochasticIPTW); missing outcomes x '
+        'predict_missing (stochastic g-formula, incl. 0/1-per-condition plans vs the deterministic custom rule); histories '
+        'of plans and re-specified models on one object vs fresh objects; resamples in {1, 3, 5, 10, 50}; seeds fixed and the draws captured '
         'by wrapping np.random.choice / np.random.binomial at run time, then replayed attached to their conditions under '
         'each permutation.  distinct = (frame hash, estimator, plan, order); non-trivial = the plan is conditional with '
         '>= 2 different probabilities, or the strata have different treated fractions and cell means (mixture differs '
@@ -50,7 +53,7 @@ def cells(df, covs, wcol=None):
     out = {'sid': sid, 'S': sorted(set(sid.tolist())), 'N': {}, 'cm': {}}
     for s in out['S']:
         for a in (0, 1):
-            sel = (sid == s) & (df['A'].values == a)
+            sel = (sid == s) & (df['A'].values == a) & ~np.isnan(df['Y'].values.astype(float))
             num = sum(Fraction(int(wi)) * Fraction(float(yi)) for wi, yi in zip(w[sel], df['Y'].values[sel]))
             out['cm'][(s, a)] = num / sum(Fraction(int(wi)) for wi in w[sel])
     return out
@@ -263,12 +266,12 @@ def siptw_cell(chk, drv, df, cfg, rec):
 
 
 # ------------------------------------------------------------------------------------------- stochastic g-formula
-def gf_fit(df, cols, model, ytype, tgt, p, conds, samples, seed, tap, wcol=None):
+def gf_fit(df, cols, model, ytype, tgt, p, conds, samples, seed, tap, wcol=None, pm=True):
     from zepid.causal.gformula import TimeFixedGFormula
     g = TimeFixedGFormula(df[cols], exposure='A', outcome='Y', outcome_type=ytype, standardize=tgt, weights=wcol)
     g.outcome_model(model, print_results=False)
     with tap:
-        g.fit_stochastic(p=p, conditional=conds, samples=samples, seed=seed)
+        g.fit_stochastic(p=p, conditional=conds, samples=samples, seed=seed, predict_missing=pm)
     return float(g.marginal_outcome), g
 
 
@@ -276,15 +279,16 @@ def gf_cell(chk, drv, df, cfg, rec):
     covs, model, p, conds, sat, tgt, ytype, samples, seed = (cfg[k] for k in (
         'covs', 'model', 'p', 'conditional', 'saturated', 'standardize', 'outcome', 'samples', 'seed'))
     cols = [c for c in df.columns if c != 'w']
+    pm = cfg.get('predict_missing', True)
     case = {'kind': 'TimeFixedGFormula.fit_stochastic', 'cfg': cfg, 'data': rec}
     m = 1 if conds is None else len(conds)
     tap = Tap(m)
-    base, gobj = gf_fit(df, cols, model, ytype, tgt, p, conds, samples, seed, tap)
+    base, gobj = gf_fit(df, cols, model, ytype, tgt, p, conds, samples, seed, tap, pm=pm)
     nontriv = conds is not None and len(set(p)) > 1
     chk.case(case, (frame_hash(df), 'GF', repr(p), repr(conds), tgt, samples, seed) if (nontriv or sat) else None,
              sample={'kind': 'GF', 'p': p, 'conditional': conds, 'samples': samples, 'n': len(df)}
              if chk.evals % 19 == 0 else None)
-    chk.count('GF/%s/%s/%s/samples=%d' % ('uncond' if conds is None else 'cond%d' % len(conds), tgt, ytype, samples))
+    chk.count('GF/%s%s/%s/%s/samples=%d' % ('' if pm else 'predict_missing=False/', 'uncond' if conds is None else 'cond%d' % len(conds), tgt, ytype, samples))
     case['impl'] = base
     masks = [np.ones(len(df), dtype=bool)] if conds is None else masks_of(df, conds)
     plist = [p] if conds is None else list(p)
@@ -324,12 +328,12 @@ def gf_cell(chk, drv, df, cfg, rec):
               'stochastic g-formula: the %d resamples do not all treat the same units (false-alarm probability '
               '< 10^-%d)' % (samples, int((samples - 1) * lg)), dict(case, first_treated=np.flatnonzero(treated[0])[:20].tolist()))
     # D: same seed, same order -> same estimate (the estimate is a function of the draws only)
-    again, _ = gf_fit(df, cols, model, ytype, tgt, p, conds, samples, seed, Tap(m))
+    again, _ = gf_fit(df, cols, model, ytype, tgt, p, conds, samples, seed, Tap(m), pm=pm)
     chk.d(close(again, base, **TOLX), 'stochastic g-formula: same seed gives the same estimate', dict(case, again=again))
     # D: a one-pair listing whose condition selects everybody consumes the identical draw stream as the unconditional
     # plan (same np.random.choice calls), so for a fixed seed the raw estimates coincide exactly
     if conds is None:
-        one, _ = gf_fit(df, cols, model, ytype, tgt, [p], everyone('g', covs), samples, seed, Tap(1))
+        one, _ = gf_fit(df, cols, model, ytype, tgt, [p], everyone('g', covs), samples, seed, Tap(1), pm=pm)
         chk.d(close(one, base, **TOLX), 'stochastic g-formula, fixed seed: one-pair listing selecting everybody = '
               'unconditional plan (identical draw stream)', dict(case, one_pair=one))
     # D: every listing order, meeting the same draws, gives the same estimate
@@ -337,24 +341,30 @@ def gf_cell(chk, drv, df, cfg, rec):
         store = {(k // m, c['pool']): c['res'] for k, c in enumerate(tap.calls)}
         for perm in perms_of(m, chk.tier):
             got, _ = gf_fit(df, cols, model, ytype, tgt, [p[i] for i in perm], [conds[i] for i in perm], samples, seed,
-                            Tap(m, replay=store))
+                            Tap(m, replay=store), pm=pm)
             chk.d(close(got, base, **TOLX), 'stochastic g-formula: listing order of the (condition, p) pairs changes '
                   'nothing (draws attached to their conditions)', dict(case, order=list(perm), permuted=got))
         if m == 2:
-            got, _ = gf_fit(df, cols, model, ytype, tgt, p, complement_listing(conds), samples, seed, Tap(m, replay=store))
+            got, _ = gf_fit(df, cols, model, ytype, tgt, p, complement_listing(conds), samples, seed, Tap(m, replay=store), pm=pm)
             chk.d(close(got, base, **TOLX), 'stochastic g-formula: the same partition written with the complementary '
                   'condition strings gives the same estimate', dict(case, complementary=got))
     # D: degenerate plans
     pi = plan_prob(df, p, conds)
     if np.all(pi == 1.0) or np.all(pi == 0.0):
-        gobj.fit('all' if pi[0] == 1.0 else 'none')
+        gobj.fit('all' if pi[0] == 1.0 else 'none', predict_missing=pm)
         chk.d(close(base, float(gobj.marginal_outcome), **TOLX), "stochastic g-formula with p = %d everywhere = "
               "fit('%s')" % (int(pi[0]), 'all' if pi[0] == 1 else 'none'), dict(case, det=float(gobj.marginal_outcome)))
         if conds is not None:
-            unc, _ = gf_fit(df, cols, model, ytype, tgt, float(pi[0]), None, samples, seed, Tap(1))
+            unc, _ = gf_fit(df, cols, model, ytype, tgt, float(pi[0]), None, samples, seed, Tap(1), pm=pm)
             chk.d(close(unc, base, **TOLX), 'stochastic g-formula: conditional [%d,...,%d] = unconditional %d exactly'
                   % (int(pi[0]), int(pi[0]), int(pi[0])), dict(case, unconditional=unc))
-    tm = target_mask(df, tgt)
+    if conds is not None and set(pi.tolist()) == {0.0, 1.0}:
+        rule = ' | '.join('(%s)' % c for c, pk in zip(conds, p) if pk == 1.0)
+        gobj.fit(rule, predict_missing=pm)
+        chk.d(close(base, float(gobj.marginal_outcome), **TOLX), 'stochastic g-formula with probabilities 0/1 per condition = '
+              'fit(custom deterministic rule)', dict(case, rule=rule, det=float(gobj.marginal_outcome)))
+    # target rows: the standardization target, restricted to rows with an observed outcome when predict_missing=False
+    tm = target_mask(df, tgt) & (np.ones(len(df), dtype=bool) if pm else df['Y'].notna().values)
     cl = cells(df, covs) if sat else None
     if sat:
         # D: exact identity -- estimate = mean over resamples of the mixture at the REALISED treated fractions
@@ -377,13 +387,16 @@ def gf_cell(chk, drv, df, cfg, rec):
         fam = {'binary': sm.families.family.Binomial(), 'normal': sm.families.family.Gaussian()}[ytype]
         with warnings.catch_warnings():
             warnings.simplefilter('ignore')
-            om = smf.glm('Y ~ ' + model, df, family=fam).fit()
+            om = smf.glm('Y ~ ' + model, df.dropna(subset=['Y']), family=fam).fit()
         chk.h_checked += 1
         q1 = np.asarray(om.predict(df.assign(A=1)))
         q0 = np.asarray(om.predict(df.assign(A=0)))
         sid = cl['sid'] if cl else np.zeros(len(df), dtype=int)
         chosen = '|'.join(';'.join(enc_list(np.flatnonzero(t & mk).tolist(), str) for mk in masks) for t in treated)
-        rep, _ = drv.ask('gfmc', c='f', tgt=tgt, q1=fxs(q1), q0=fxs(q0), chosen=chosen, **enc_rows_f(df, sid))
+        rows = enc_rows_f(df.assign(Y=df['Y'].fillna(0.0)), sid)
+        if not pm:
+            rows['w'] = fxs(df['Y'].notna().values.astype(float))
+        rep, _ = drv.ask('gfmc', c='f', tgt=tgt, q1=fxs(q1), q0=fxs(q0), chosen=chosen, **rows)
         chk.k(rep['status'] == 'ok' and close(unfx(rep['m']), base, **TOLD),
               'stochastic g-formula = Lean model on the reference predictions and the captured draws',
               dict(case, model=rep.get('m')))
@@ -557,6 +570,160 @@ def stmle_cell(chk, drv, df, cfg, rec):
               'captured draws', dict(case, model=rep.get('m')))
 
 
+# ------------------------------------------------------------------------------------------- custom learners, histories
+class CellProportion:
+    """sklearn-style learner: the mean of y among training rows with the same design row (= what a saturated GLM fits)"""
+
+    def fit(self, X, y):
+        X, y = np.asarray(X, dtype=float), np.asarray(y, dtype=float)
+        acc = {}
+        for row, v in zip(map(tuple, np.round(X, 9)), y):
+            t = acc.setdefault(row, [0.0, 0])
+            t[0] += v
+            t[1] += 1
+        self.table_ = {k: t[0] / t[1] for k, t in acc.items()}
+        return self
+
+    def _p(self, X):
+        return np.array([self.table_[row] for row in map(tuple, np.round(np.asarray(X, dtype=float), 9))])
+
+    def predict_proba(self, X):
+        p = self._p(X)
+        return np.column_stack([1 - p, p])
+
+
+class CellMeanPredictOnly(CellProportion):
+    """the same learner exposing only `predict` (the other branch of zEpid's custom-model dispatch)"""
+    predict_proba = None
+
+    def __getattribute__(self, name):
+        if name == 'predict_proba':
+            raise AttributeError(name)
+        return object.__getattribute__(self, name)
+
+    def predict(self, X):
+        return self._p(X)
+
+
+def stmle_custom_cell(chk, drv, df, cfg, rec):
+    """custom_model= for the treatment and / or the outcome model: a learner returning the stratum proportions must
+    reproduce the built-in saturated logistic models for every plan (same seed = same draw stream)"""
+    from zepid.causal.doublyrobust import StochasticTMLE
+    covs, p, conds, samples, seed, which, learner = (cfg[k] for k in ('covs', 'p', 'conditional', 'samples', 'seed',
+                                                                      'custom', 'learner'))
+    cols = [c for c in df.columns if c != 'w']
+    case = {'kind': 'StochasticTMLE-custom', 'cfg': cfg, 'data': rec}
+    satg, satq = gen.sat_cov(covs), gen.sat_out(covs)
+    m = 1 if conds is None else len(conds)
+    chk.case(case, (frame_hash(df), 'STMLE-custom', repr(p), repr(conds), which, learner, samples, seed),
+             sample={'kind': 'StochasticTMLE-custom', 'custom': which, 'p': p, 'n': len(df)} if chk.evals % 11 == 0 else None)
+    chk.count('STMLE/custom=%s/%s' % (which, learner))
+    mk = {'proba': CellProportion, 'predict': CellMeanPredictOnly}[learner]
+    t = StochasticTMLE(df[cols], exposure='A', outcome='Y')
+    t.exposure_model(satg, custom_model=(mk() if which in ('g', 'both') else None))
+    t.outcome_model(satq, custom_model=(mk() if which in ('q', 'both') else None))
+    tap = Tap(m)
+    with tap:
+        t.fit(p=p, conditional=conds, samples=samples, seed=seed)
+    ref = stmle_fit(df, cols, satg, satq, p, conds, samples, seed, Tap(m))
+    got = {'marginal': float(t.marginal_outcome), 'epsilon': float(t.epsilon)}
+    chk.d(close(got['marginal'], float(ref.marginal_outcome), **TOLC) and abs(got['epsilon'] - float(ref.epsilon)) <= 1e-6
+          and allclose(np.asarray(t.marginals_vector, dtype=float), np.asarray(ref.marginals_vector, dtype=float), **TOLC),
+          'StochasticTMLE with a custom stratum-proportion learner (%s model) = built-in saturated models, same seed'
+          % which, dict(case, custom=got, builtin={'marginal': float(ref.marginal_outcome), 'epsilon': float(ref.epsilon)}))
+    # D: the mixture at the realised treated fractions, from the captured Bernoulli draws
+    n = len(df)
+    if len(tap.calls) == samples * m and all(len(c['res']) == n for c in tap.calls):
+        masks = [np.ones(n, dtype=bool)] if conds is None else masks_of(df, conds)
+        cl = cells(df, covs)
+        vals = []
+        for sidx in range(samples):
+            a = np.zeros(n, dtype=bool)
+            for k in range(m):
+                a = np.where(masks[k], np.asarray(tap.calls[sidx * m + k]['res'], dtype=bool), a)
+            frac = {st: Fraction(int((a & (cl['sid'] == st)).sum()), int((cl['sid'] == st).sum())) for st in cl['S']}
+            vals.append(mixture_exact(df, cl, frac, np.ones(n, dtype=bool)))
+        want = float(sum(vals) / len(vals))
+        chk.d(close(got['marginal'], want, **TOLC), 'StochasticTMLE with custom learners = mixture at the realised treated '
+              'fractions, averaged over the resamples', dict(case, want=want))
+
+
+def snapshot(t):
+    return {'marginal': float(t.marginal_outcome), 'epsilon': float(t.epsilon), 'conditional_se': float(t.conditional_se),
+            'mv': [float(v) for v in np.asarray(t.marginals_vector, dtype=float)]}
+
+
+def same_snapshot(a, b):
+    return close(a['marginal'], b['marginal'], **TOLX) and close(a['epsilon'], b['epsilon'], rtol=1e-9, atol=1e-12) and \
+        close(a['conditional_se'], b['conditional_se'], rtol=1e-9, atol=1e-12) and allclose(a['mv'], b['mv'], **TOLX)
+
+
+def stmle_history_cell(chk, drv, df, cfg, rec):
+    """several plans (and re-specified nuisance models) on ONE StochasticTMLE object: every fit must equal the fit of a
+    fresh object given the last specification, same plan and same seed; the stored data must stay the caller's data"""
+    from zepid.causal.doublyrobust import StochasticTMLE
+    steps, samples = cfg['steps'], cfg['samples']
+    cols = [c for c in df.columns if c != 'w']
+    case = {'kind': 'StochasticTMLE-history', 'cfg': cfg, 'data': rec}
+    chk.case(case, (frame_hash(df), 'STMLE-history', repr(steps)),
+             sample={'kind': 'StochasticTMLE-history', 'steps': len(steps), 'n': len(df)} if chk.evals % 5 == 0 else None)
+    chk.count('STMLE/history')
+    t = StochasticTMLE(df[cols], exposure='A', outcome='Y')
+    gm = qm = None
+    a0 = df['A'].values.copy()
+    for k, st in enumerate(steps):
+        if st['op'] == 'g':
+            gm = st['model']
+            t.exposure_model(gm, bound=st.get('bound', False))
+            gb = st.get('bound', False)
+        elif st['op'] == 'q':
+            qm = st['model']
+            t.outcome_model(qm)
+        else:
+            m = 1 if st['conditional'] is None else len(st['conditional'])
+            with Tap(m):
+                t.fit(p=st['p'], conditional=st['conditional'], samples=samples, seed=st['seed'])
+            fresh = StochasticTMLE(df[cols], exposure='A', outcome='Y')
+            fresh.exposure_model(gm, bound=gb)
+            fresh.outcome_model(qm)
+            with Tap(m):
+                fresh.fit(p=st['p'], conditional=st['conditional'], samples=samples, seed=st['seed'])
+            chk.d(same_snapshot(snapshot(t), snapshot(fresh)), 'StochasticTMLE.fit on a reused object (step %d) = fit of a '
+                  'fresh object given the last specification, same plan, same seed' % k,
+                  dict(case, step=k, reused={k2: v for k2, v in snapshot(t).items() if k2 != 'mv'},
+                       fresh={k2: v for k2, v in snapshot(fresh).items() if k2 != 'mv'}))
+            chk.d(np.array_equal(np.asarray(t.df['A'].values, dtype=float), a0.astype(float)),
+                  'StochasticTMLE: the stored data still carry the observed treatment after fit (step %d)' % k,
+                  dict(case, step=k))
+
+
+def light_history_cell(chk, drv, df, cfg, rec):
+    """StochasticIPTW and TimeFixedGFormula: several plans on one object (deterministic fits in between) vs fresh objects"""
+    from zepid.causal.ipw import StochasticIPTW
+    from zepid.causal.gformula import TimeFixedGFormula
+    cols = [c for c in df.columns if c != 'w']
+    case = {'kind': 'history-IPTW-GF', 'cfg': cfg, 'data': rec}
+    chk.case(case, (frame_hash(df), 'history-IPTW-GF', repr(cfg['plans'])))
+    chk.count('SIPTW+GF/history')
+    s = StochasticIPTW(df[cols], treatment='A', outcome='Y')
+    s.treatment_model(cfg['gmodel'], print_results=False)
+    g = TimeFixedGFormula(df[cols], exposure='A', outcome='Y')
+    g.outcome_model(cfg['qmodel'], print_results=False)
+    for k, (p, cs_df, cs_g, seed) in enumerate(cfg['plans']):
+        s.fit(p=p, conditional=cs_df)
+        fresh = siptw_fit(df, cols, cfg['gmodel'], p, cs_df)
+        chk.d(close(float(s.marginal_outcome), fresh, **TOLX), 'StochasticIPTW.fit on a reused object (plan %d) = fresh '
+              'object' % k, dict(case, step=k, reused=float(s.marginal_outcome), fresh=fresh))
+        m = 1 if cs_g is None else len(cs_g)
+        with Tap(m):
+            g.fit_stochastic(p=p, conditional=cs_g, samples=3, seed=seed)
+        got = float(g.marginal_outcome)
+        fr, _ = gf_fit(df, cols, cfg['qmodel'], 'binary', 'population', p, cs_g, 3, seed, Tap(m))
+        chk.d(close(got, fr, **TOLX), 'fit_stochastic on a reused object (plan %d, deterministic fits in between) = fresh '
+              'object, same seed' % k, dict(case, step=k, reused=got, fresh=fr))
+        g.fit('all' if k % 2 else 'none')
+
+
 # ------------------------------------------------------------------------------------------- driver
 P_GRID = [0.0, 0.2, 0.5, 0.75, 1.0]
 
@@ -604,6 +771,46 @@ def run(chk, drv, rng, tier):
                 cfg = dict(covs=covs, gmodel=satg, qmodel=satq, p=p, conditional=cs, saturated=True,
                            samples=SAMPLES[t % 4], seed=int(rng.integers(1, 10 ** 6)))
                 guard(chk, 'StochasticTMLE', cfg, rec, stmle_cell, drv, df, cfg, rec)
+    # StochasticTMLE with custom learners (treatment / outcome / both; predict_proba and predict-only dispatch)
+    for i in range(1 if tier == 'quick' else 5):
+        df, covs = gen.cat_dataset(rng, outcome='binary', ncov=1 + i % 2, n_extra=int(rng.integers(60, 200)),
+                                   index=['shuffled', 'default', 'shifted'][i % 3])
+        rec = {'frame': gen.frame_record(df), 'n': len(df), 'covs': covs}
+        cs = cond_sets(df, covs, rng, 'df')[0]
+        plans = [(1.0, None), (0.0, None), (0.35, None), ([float(v) for v in np.round(rng.uniform(0.1, 0.9, size=len(cs)), 2)], cs),
+                 ([1.0] * len(cs), cs)]
+        for j, which in enumerate(('q', 'g', 'both')):
+            for k, (p, c) in enumerate(plans):
+                t += 1
+                cfg = dict(covs=covs, p=p, conditional=c, samples=[2, 5, 3][k % 3], seed=int(rng.integers(1, 10 ** 6)),
+                           custom=which, learner=['proba', 'predict'][(i + j + k) % 2])
+                guard(chk, 'StochasticTMLE-custom', cfg, rec, stmle_custom_cell, drv, df, cfg, rec)
+    # weights= : frequency weights that differ between the arms within strata (StochasticIPTW)
+    for i in range(1 if tier == 'quick' else 5):
+        df, covs = gen.cat_dataset(rng, outcome=['binary', 'normal'][i % 2], ncov=1 + i % 2, weights=True,
+                                   n_extra=int(rng.integers(60, 260)), index=['shifted', 'shuffled', 'default'][i % 3])
+        df['w'] = df['w'] + 2 * df['A'] * (gen.strata_ids(df, covs) % 2) + (1 - df['A']) * (gen.strata_ids(df, covs) % 3)
+        rec = {'frame': gen.frame_record(df), 'n': len(df), 'covs': covs}
+        for p, cs in plans_for(df, covs, rng, 'df'):
+            cfg = dict(covs=covs, model=gen.sat_cov(covs), p=p, conditional=cs, saturated=True, weights='w')
+            guard(chk, 'StochasticIPTW', cfg, rec, siptw_cell, drv, df, cfg, rec)
+    # missing outcomes (related to treatment and covariates) x predict_missing (stochastic g-formula)
+    for i in range(1 if tier == 'quick' else 5):
+        ytype = ['binary', 'normal'][i % 2]
+        df, covs = gen.cat_dataset(rng, outcome=ytype, ncov=1 + i % 2, missing='mar', n_extra=int(rng.integers(80, 260)),
+                                   index=['default', 'shuffled', 'shifted'][i % 3])
+        rec = {'frame': gen.frame_record(df), 'n': len(df), 'covs': covs}
+        cs = cond_sets(df, covs, rng, 'g')[0]
+        alt = [float(k % 2) for k in range(len(cs))]
+        plans = [(1.0, None), (0.0, None), (0.4, None), (alt, cs), ([1.0 - v for v in alt], cs), ([1.0] * len(cs), cs),
+                 ([float(v) for v in np.round(rng.uniform(0.2, 0.8, size=len(cs)), 2)], cs)]
+        for pm in (False, True):
+            for k, (p, c) in enumerate(plans):
+                t += 1
+                cfg = dict(covs=covs, model=gen.sat_out(covs), p=p, conditional=c, saturated=True,
+                           standardize=['population', 'exposed', 'unexposed'][(k + int(pm)) % 3], outcome=ytype,
+                           samples=[3, 5, 1][k % 3], seed=int(rng.integers(1, 10 ** 6)), predict_missing=pm)
+                guard(chk, 'TimeFixedGFormula.fit_stochastic', cfg, rec, gf_cell, drv, df, cfg, rec)
     # non-saturated models on data with a continuous predictor: order-freeness and degenerate plans do not need saturation
     for i in range(2 if tier == 'quick' else 12):
         df = relabel(mixed_dataset(rng), rng, ['shuffled', 'default', 'shifted'][i % 3]).drop(columns=['w'])
@@ -638,6 +845,24 @@ def run(chk, drv, rng, tier):
                                outcome='binary', samples=(pl[2] if len(pl) > 2 else SAMPLES[t % 4]),
                                seed=int(rng.integers(1, 10 ** 6)))
                 guard(chk, kind, cfg, rec, fn, drv, df, cfg, rec)
+        # histories on one object (non-saturated: epsilon != 0, so a corrupted stored treatment shows)
+        k1 = sorted(df['L1'].unique())
+        c01 = ["df['L1']==%d" % k1[0], "df['L1']!=%d" % k1[0]]
+        sd = [int(v) for v in rng.integers(1, 10 ** 6, size=6)]
+        steps = [dict(op='g', model=gm), dict(op='q', model=qm),
+                 dict(op='fit', p=0.5, conditional=None, seed=sd[0]),
+                 dict(op='fit', p=[1.0, 0.0], conditional=c01, seed=sd[1]),
+                 dict(op='fit', p=[0.0, 1.0], conditional=c01[::-1], seed=sd[2]),
+                 dict(op='q', model='A + C(L1) + x'),
+                 dict(op='fit', p=0.3, conditional=None, seed=sd[3]),
+                 dict(op='g', model='L2 + x', bound=[0.3, 0.7]),
+                 dict(op='fit', p=[0.2, 0.9], conditional=c01, seed=sd[4])]
+        cfg = dict(steps=steps, samples=3)
+        guard(chk, 'StochasticTMLE-history', cfg, rec, stmle_history_cell, drv, df, cfg, rec)
+        g01 = [c.replace('df[', 'g[') for c in c01]
+        cfg = dict(gmodel=gm, qmodel=qm, plans=[(0.5, None, None, sd[0]), ([1.0, 0.0], c01, g01, sd[1]),
+                                                ([0.3, 0.6], c01[::-1], g01[::-1], sd[2]), (1.0, None, None, sd[3])])
+        guard(chk, 'history-IPTW-GF', cfg, rec, light_history_cell, drv, df, cfg, rec)
 
 
 def replay(rec):
@@ -653,8 +878,9 @@ def replay(rec):
             print('  (data set too large to be stored; rerun with the recorded seed)')
             continue
         df = _frame(data)
-        fn = {'StochasticIPTW': siptw_cell, 'TimeFixedGFormula.fit_stochastic': gf_cell, 'StochasticTMLE': stmle_cell}[
-            c['kind']]
+        fn = {'StochasticIPTW': siptw_cell, 'TimeFixedGFormula.fit_stochastic': gf_cell, 'StochasticTMLE': stmle_cell,
+              'StochasticTMLE-custom': stmle_custom_cell, 'StochasticTMLE-history': stmle_history_cell,
+              'history-IPTW-GF': light_history_cell}[c['kind']]
         with common.quiet():
             fn(chk, None, df, c['cfg'], data)
     for f in chk.d_fail:
